@@ -148,9 +148,10 @@ class Link(Block):
     inputs (start_p, start_c, reset, done, load_outs, x, en): x = reg_in (poke) or the data input of the gated register, en = its clock enable.
     step(i, n) holds the inputs for one clk(n) call.  outputs [tvalid, tdata, tlast, tkeep, sent, p_active, q, loaded, c_active, tready, reg_in]"""
     name = 'Reg2Axi->Axi2Reg'
-    def __init__(self, W, Q, DW, order='pc', source='poke'):
+    def __init__(self, W, Q, DW, order='pc', source='poke', clkname='clk_dut', twin=False):
         py4hw, AXIS, vw = _imports()
         self.W, self.Q, self.DW, self.order, self.source = W, Q, DW, order, source
+        self.clkname, self.twin = clkname, twin      # name of the gated driver ('clk' = the system clock's own name); twin: a second, unrelated gated driver of the SAME name
         with quiet():
             hw = py4hw.HWSystem()
             sp, sc, rs, dn = hw.wire('ap_start_p', 1), hw.wire('ap_start_c', 1), hw.wire('ap_reset', 1), hw.wire('ap_done', 1)
@@ -159,9 +160,14 @@ class Link(Block):
             q, ld, ca = hw.wire('q', Q), hw.wire('loaded', 1), hw.wire('c_active', 1)
             x, en = hw.wire('dut_d', W), hw.wire('dut_en', 1)
             s = AXIS(hw, 's', dw=DW, has_tlast=True, has_tkeep=True)
+            aux_en, aux_q = hw.wire('aux_en', 1), hw.wire('aux_q', W)
+            self.aux_en = aux_en
             def dut():
                 r = py4hw.Reg(hw, 'dut', d=x, q=ri)
-                r.clockDriver = py4hw.ClockDriver('clk_dut', base=hw.clockDriver, wire=en, enable=en)
+                r.clockDriver = py4hw.ClockDriver(clkname, base=hw.clockDriver, wire=en, enable=en)
+                if twin:        # an unrelated block on its own gated clock (enabled exactly when the first is not), driver of the same name
+                    a = py4hw.Reg(hw, 'aux', d=x, q=aux_q)
+                    a.clockDriver = py4hw.ClockDriver(clkname, base=hw.clockDriver, wire=aux_en, enable=aux_en)
                 return r
             self.dutreg = dut() if source == 'gated_first' else None
             for who in order:
@@ -177,6 +183,7 @@ class Link(Block):
 
     def step(self, i, n=1):
         for w, v in zip(self.inw, i): w.put(v)
+        self.aux_en.put(1 - i[6])
         with quiet():
             self.sim.clk(n)
         return self.obs()
